@@ -215,11 +215,11 @@ def _cov_from_A(A_xi):
     return A_xi @ A_xi.T
 
 
-def iwp_reference_cov(dt, sigma, asp):
+def iwp_reference_cov(dt, sigma, asp, P0=None):
     """Covariance of (x, v) at all grid points of dx = v dt + sigma sqrt(asp) dW1, dv = sigma dW2
     with piecewise constant parameters, from the continuous-time transition formulas."""
     n = len(dt)
-    P = [np.zeros((2, 2))]
+    P = [np.zeros((2, 2)) if P0 is None else np.asarray(P0, dtype=float)]
     Fs = []
     for k in range(n):
         d, s2, a = dt[k], sigma[k] ** 2, asp[k]
@@ -524,6 +524,231 @@ def model_form_failures(obs):
 
 
 # --------------------------------------------------------------------------------------------------
+# model classes: every parameter in every documented form, in combination, priors at non-zero latents
+# --------------------------------------------------------------------------------------------------
+
+COMBO_DT = np.array([0.25, 1.0, 0.0625])
+
+
+def _lognormal_ref(mean, std, xi):
+    """Documented meaning of a (mean, std) tuple / LogNormalPrior: log-normal with these moments."""
+    ls = np.sqrt(np.log1p((std / mean) ** 2))
+    return np.exp(np.log(mean) - 0.5 * ls ** 2 + ls * np.asarray(xi, dtype=np.float64))
+
+
+def positive_forms(tag, name):
+    """Forms of sigma / gamma / asperity: (label, argument, latent dict, documented value)."""
+    import nifty.re as jft
+    n = COMBO_DT.size
+    lat1 = {"sigma": 0.7, "gamma": -0.4, "asperity": 0.3}[tag]
+    latn = np.array([0.7, -0.3, 0.2]) * (1.0 if tag != "gamma" else -1.0)
+    sc = {"sigma": 1.25, "gamma": 0.375, "asperity": 0.125}[tag]
+    sq = {"sigma": np.array([0.5, 2.0, 1.25]), "gamma": np.array([0.5, 0.125, 1.0]), "asperity": np.array([0.0, 0.25, 0.0625])}[tag]
+    tp = {"sigma": (1.5, 0.5), "gamma": (0.5, 0.25), "asperity": (0.25, 0.125)}[tag]
+    lz = {"sigma": (0.75, 0.25), "gamma": (0.25, 0.5), "asperity": (0.5, 0.25)}[tag]
+    return [
+        ("scalar", sc, {}, np.full(n, sc)),
+        ("sequence", sq, {}, sq),
+        ("tuple", tp, {name + "_" + tag: lat1}, np.full(n, _lognormal_ref(tp[0], tp[1], lat1))),
+        ("lazymodel", jft.LogNormalPrior(lz[0], lz[1], name=tag + "_model"), {tag + "_model": lat1}, np.full(n, _lognormal_ref(lz[0], lz[1], lat1))),
+        ("lazymodel-seq", jft.LogNormalPrior(lz[0], lz[1], shape=(n,), name=tag + "_seqmodel"), {tag + "_seqmodel": latn}, _lognormal_ref(lz[0], lz[1], latn)),
+    ]
+
+
+def start_forms(proc, name):
+    """Forms of x0: (label, argument, start latent key or None, documented mean, documented coefficient(s)
+    of the start latent; None = steady state sigma_0)."""
+    import nifty.re as jft
+    if proc == "iwp":
+        return [
+            ("array", np.array([0.5, -1.0]), None, np.array([0.5, -1.0]), np.zeros(2)),
+            ("array0", np.zeros(2), None, np.zeros(2), np.zeros(2)),
+            ("tuple", (np.array([0.25, -0.5]), np.array([0.5, 2.0])), name + "_x0", np.array([0.25, -0.5]), np.array([0.5, 2.0])),
+            ("lazymodel", jft.NormalPrior(np.array([1.0, 0.0]), np.array([2.0, 0.25]), shape=(2,), name="my_start"), "my_start", np.array([1.0, 0.0]), np.array([2.0, 0.25])),
+        ]
+    out = [("float0", 0.0, None, 0.0, 0.0), ("nonzero", 0.75, None, 0.75, 0.0),
+           ("tuple", (0.25, 0.5), name + "_x0", 0.25, 0.5),
+           ("lazymodel", jft.NormalPrior(-0.25, 1.5, name="my_start"), "my_start", -0.25, 1.5)]
+    if proc == "ou":
+        out.append(("omitted", None, name + "_x0", 0.0, None))
+    return out
+
+
+def combo_plan(quick, seed):
+    """(proc, i_x0, i_sigma, i_third): thorough = full product; quick = every PAIR of forms of every two
+    parameters (third parameter cycling with the seed)."""
+    plan = []
+    for proc, nx, third in (("ou", 5, 5), ("wiener", 4, 1), ("iwp", 4, 6)):
+        full = [(a, b, c) for a in range(nx) for b in range(5) for c in range(third)]
+        if not quick or third == 1:
+            plan += [(proc,) + t for t in full]
+            continue
+        chosen = set()
+        for a in range(nx):
+            for b in range(5):
+                chosen.add((a, b, (a + 2 * b + seed) % third))
+        for a in range(nx):
+            for c in range(third):
+                chosen.add((a, (a + c + seed) % 5, c))
+        for b in range(5):
+            for c in range(third):
+                chosen.add(((b + 2 * c + seed) % nx, b, c))
+        plan += [(proc,) + t for t in sorted(chosen)]
+    return plan
+
+
+def combo_observations(quick, seed):
+    import jax
+    import nifty.re as jft
+    n = COMBO_DT.size
+    obs = []
+    for proc, ia, ib, ic in combo_plan(quick, seed):
+        name = {"ou": "oup", "wiener": "wp", "iwp": "iwp"}[proc]
+        xl, x0, skey, mean, c0 = start_forms(proc, name)[ia]
+        sl, sarg, slat, sval = positive_forms("sigma", name)[ib]
+        o = {"proc": proc, "forms": {"x0": xl, "sigma": sl}, "error": None}
+        lat, want = dict(slat), {name} | set(slat) | ({skey} if skey else set())
+        try:
+            if proc == "ou":
+                gl, garg, glat, gval = positive_forms("gamma", name)[ic]
+                o["forms"]["gamma"] = gl
+                lat.update(glat)
+                want |= set(glat)
+                gp = jft.OrnsteinUhlenbeckProcess(sarg, garg, COMBO_DT, name=name, x0=x0)
+                o["gamma"] = gval
+            elif proc == "wiener":
+                gp = jft.WienerProcess(x0, sarg, COMBO_DT, name=name)
+            else:
+                af = [("none", None, {}, np.zeros(n))] + positive_forms("asperity", name)
+                al, aarg, alat, aval = af[ic]
+                o["forms"]["asperity"] = al
+                lat.update(alat)
+                want |= set(alat)
+                gp = jft.IntegratedWienerProcess(x0, sarg, COMBO_DT, name=name, asperity=aarg)
+                o["asperity"] = aval
+            keys = set(gp.domain.keys())
+            o.update({"keys": sorted(keys), "want_keys": sorted(want), "sigma": sval, "mean": mean,
+                      "c0": (float(sval[0]) if c0 is None else c0)})
+            if keys != want:
+                obs.append(o)
+                continue
+            zero = {k: np.zeros(np.shape(v)) for k, v in jft.zeros_like(gp.domain).items()}
+            for k, v in lat.items():
+                zero[k] = np.asarray(v, dtype=np.float64) + zero[k]
+            rows = [zero]
+            two = proc == "iwp"
+            if skey:
+                for j in range(2 if two else 1):
+                    e = dict(zero)
+                    u = np.zeros(np.shape(zero[skey]))
+                    if two:
+                        u[j] = 1.0
+                    else:
+                        u = u + 1.0
+                    e[skey] = u
+                    rows.append(e)
+            for k in range(n):
+                for j in range(2 if two else 1):
+                    e = dict(zero)
+                    u = np.zeros(np.shape(zero[name]))
+                    if two:
+                        u[k, j] = 1.0
+                    else:
+                        u[k] = 1.0
+                    e[name] = u
+                    rows.append(e)
+            batch = {k: np.stack([r[k] for r in rows]) for k in zero}
+            out = np.asarray(jax.jit(jax.vmap(gp))(batch), dtype=np.float64)
+            base, resp = out[0], out[1:] - out[0]
+            nstart = (2 if two else 1)
+            if not skey:
+                resp = np.concatenate([np.zeros((nstart,) + base.shape), resp], axis=0)
+            o["base"], o["A"] = base, np.moveaxis(resp, 0, -1)      # scalar: (n+1, 1+n); iwp: (n+1, 2, 2+2n)
+        except Exception as e:
+            o["error"] = repr(e)[:240]
+        obs.append(o)
+    return obs
+
+
+def combo_checks(obs):
+    import jax.numpy as jnp
+    out = []
+    n = COMBO_DT.size
+    dt = COMBO_DT
+    s_ = np.asarray(jnp.sqrt(jnp.asarray(dt)))
+    for o in obs:
+        tag = "%s-combo-%s" % (o["proc"], ",".join("%s=%s" % kv for kv in sorted(o["forms"].items())))
+        if o["error"] is not None:
+            out.append((tag, "false", o))
+            continue
+        out.append((tag + "-keys", C.cbool(o["keys"] == o["want_keys"]), o))
+        if "A" not in o:
+            continue
+        tol = q(TOL * scale_of(o["A"], o["base"]))
+        if o["proc"] == "ou":
+            e = np.asarray(jnp.exp(-jnp.asarray(o["gamma"]) * jnp.asarray(dt)))
+            qq = np.asarray(jnp.sqrt(1.0 - jnp.asarray(e) ** 2))
+            out.append((tag + "-rows", "chk_ou_start_rows %s %s %s %s %s %s" % (tol, q(o["c0"]), ql(o["sigma"]), ql(e), ql(qq), qll(o["A"])), o))
+            out.append((tag + "-mean", "chk_ou %s %s %s %s %s %s %s" % (tol, ql(np.zeros(n)), q(o["mean"]), ql(o["sigma"]), ql(e), ql(qq), ql(o["base"])), o))
+        elif o["proc"] == "wiener":
+            out.append((tag + "-rows", "chk_wiener_start_rows %s %s %s %s %s" % (tol, q(o["c0"]), ql(o["sigma"]), ql(s_), qll(o["A"])), o))
+            out.append((tag + "-mean", "list_eqb (qc_close (Q2Qc %s)) (wiener (qcl %s) (Q2Qc %s) (qcl %s) (qcl %s)) (qcl %s)" % (
+                tol, ql(np.zeros(n)), q(o["mean"]), ql(o["sigma"]), ql(s_), ql(o["base"])), o))
+        else:
+            r = np.asarray(jnp.sqrt(jnp.asarray(dt) ** 2 / 12.0 + jnp.asarray(o["asperity"])))
+            A = o["A"]
+            cols = [[(A[k, 0, j], A[k, 1, j]) for j in range(A.shape[2])] for k in range(n + 1)]
+            out.append((tag + "-cols", "chk_iwp_cols_start %s %s %s %s %s %s %s %s" % (tol, q(o["c0"][0]), q(o["c0"][1]), ql(o["sigma"]), ql(s_), ql(dt), ql(r), qpll(cols)), o))
+            out.append((tag + "-mean", "chk_iwp %s %s %s %s %s %s %s %s" % (tol, qpl(np.zeros((n, 2))), qp(o["mean"]), ql(o["sigma"]), ql(s_), ql(dt), ql(r), qpl(o["base"])), o))
+    return out
+
+
+def combo_failures(obs):
+    """Direct statement on the implementation: documented latent keys; A A^T = covariance of the documented
+    process with the documented parameter values (priors evaluated at the chosen non-zero latents)."""
+    fails = []
+    n = COMBO_DT.size
+    dt = COMBO_DT
+    for o in obs:
+        cls = {"ou": "OrnsteinUhlenbeckProcess", "wiener": "WienerProcess", "iwp": "IntegratedWienerProcess"}[o["proc"]]
+        sig = {"fn": cls, "kind": "model-parameter-forms"}
+        inp = {"case": "model-combo", "proc": o["proc"], "forms": o["forms"]}
+        desc = "%s(%s)" % (cls, ", ".join("%s as %s" % kv for kv in sorted(o["forms"].items())))
+        if o["error"] is not None:
+            fails.append((sig, "%s raised %s" % (desc, o["error"]), inp))
+            continue
+        if o["keys"] != o["want_keys"]:
+            fails.append((sig, "%s: latent keys %s, documented %s" % (desc, o["keys"], o["want_keys"]), inp))
+            continue
+        if o["proc"] == "iwp":
+            P0 = np.diag(np.asarray(o["c0"], dtype=float) ** 2)
+            ref = iwp_reference_cov(dt, o["sigma"], o["asperity"], P0)
+            cov = _cov_from_A(o["A"].reshape(2 * (n + 1), -1))
+            mean_ok = np.allclose(o["base"][0], o["mean"], atol=1e-12)
+        else:
+            phis = np.exp(-o["gamma"] * dt) if o["proc"] == "ou" else np.ones(n)
+            tv = o["sigma"] ** 2 * (1 - phis ** 2) if o["proc"] == "ou" else o["sigma"] ** 2 * dt
+            P = [o["c0"] ** 2]
+            for k in range(n):
+                P.append(phis[k] ** 2 * P[-1] + tv[k])
+            ref = np.zeros((n + 1, n + 1))
+            for i in range(n + 1):
+                phi = 1.0
+                for j in range(i, n + 1):
+                    if j > i:
+                        phi *= phis[j - 1]
+                    ref[i, j] = ref[j, i] = phi * P[i]
+            cov = _cov_from_A(o["A"])
+            mean_ok = abs(o["base"][0] - o["mean"]) <= 1e-12
+        if not np.allclose(cov, ref, rtol=0, atol=1e-9 * scale_of(ref)):
+            i, j = np.unravel_index(np.argmax(np.abs(cov - ref)), cov.shape)
+            fails.append((sig, "%s: covariance entry (%d,%d) = %r, documented process gives %r" % (desc, i, j, float(cov[i, j]), float(ref[i, j])), inp))
+        elif not mean_ok:
+            fails.append((sig, "%s: E[x_0] = %s, documented %s" % (desc, np.asarray(o["base"][0]).tolist(), np.asarray(o["mean"]).tolist()), inp))
+    return fails
+
+
+# --------------------------------------------------------------------------------------------------
 # case generation
 # --------------------------------------------------------------------------------------------------
 
@@ -636,6 +861,10 @@ class C29(C.Check):
         for what, t in model_form_checks(self.form_obs):
             meta.append({"what": what, "case": {"kind": "model-form", "n": 4, "par": {}}})
             checks.append(t)
+        self.combo_obs = combo_observations(ctx.quick, ctx.seed)
+        for what, t, o in combo_checks(self.combo_obs):
+            meta.append({"what": what, "case": {"kind": "model-form", "n": 3, "par": {}, "forms": o["forms"], "proc": o["proc"]}})
+            checks.append(t)
         bad = fasteval.eval_bools(self.prop, "corr", HEADER, checks, jobs=3)
         hints = []
         for i in bad[:6]:
@@ -655,6 +884,8 @@ class C29(C.Check):
             "samples": [self.cases[i] for i in (1, len(self.cases) // 2, len(self.cases) - 1)],
             "input_distribution": dist,
             "steps": sorted({c["n"] for c in self.cases}),
+            "model_class_form_combinations": len(getattr(self, "combo_obs", [])),
+            "model_class_x0_spellings": len(getattr(self, "form_obs", [])),
             "exact_comparisons": sum(1 for m in meta if m["what"].startswith(("wiener", "gmp1"))),
             "tolerance_comparisons": sum(1 for m in meta if not m["what"].startswith(("wiener", "gmp1"))),
             "disagreements": len(bad),
@@ -680,6 +911,9 @@ class C29(C.Check):
             for sig, what, inp in model_form_failures(getattr(self, "form_obs", None) or model_form_observations())[:2]:
                 res.add_failing(sig, what, inp)
         if not res.failing:
+            for sig, what, inp in combo_failures(getattr(self, "combo_obs", None) or combo_observations(ctx.quick, ctx.seed))[:2]:
+                res.add_failing(sig, what, inp)
+        if not res.failing:
             for sig, what, inp in model_class_failures():
                 res.add_failing(sig, what, inp)
         if budget > 1 and not res.failing:
@@ -694,6 +928,9 @@ class C29(C.Check):
 
     def replay(self, ctx, rp):
         c = rp["input"].get("case")
+        if c == "model-combo":
+            return any(f[2]["forms"] == rp["input"]["forms"] and f[2]["proc"] == rp["input"]["proc"]
+                       for f in combo_failures(combo_observations(False, 0)))
         if c == "model-form":
             return any(f[2]["form"] == rp["input"]["form"] and f[2]["proc"] == rp["input"]["proc"]
                        for f in model_form_failures(model_form_observations()))
